@@ -340,6 +340,14 @@ func (e *Events) Listener() *pebble.EventListener {
 			}
 			e.mu.Unlock()
 		},
+		BlobFileRewriteEnd: func(bi pebble.BlobFileRewriteInfo) {
+			e.trace("%s", bi.String())
+			e.mu.Lock()
+			if bi.Err == nil {
+				e.Compactions["blob-file-rewrite"]++
+			}
+			e.mu.Unlock()
+		},
 		FlushEnd: func(fi pebble.FlushInfo) {
 			e.trace("%s", fi.String())
 			e.mu.Lock()
